@@ -1,6 +1,7 @@
 package main
 
 import (
+	"runtime"
 	"context"
 	"fmt"
 	"net/http"
@@ -27,6 +28,10 @@ type timedCase struct {
 	Arr     [][2]int `json:"arrivals"`     // (ms after t0, id)
 	Close   int      `json:"client_close_ms"`
 	Horizon int      `json:"horizon_ms"`
+	// Tie: the publishes and the client close are issued the instant the clock reaches their time, without first
+	// letting the handler settle — a timer due at that same instant and the arrival are then both ready when the
+	// handler's select runs (Go picks one at random; the model accepts every resolution)
+	Tie bool `json:"tie,omitempty"`
 }
 
 // timedRW records every write with its virtual time and enforces the armed write deadline.
@@ -73,7 +78,9 @@ func (w *timedRW) Write(p []byte) (int, error) {
 
 func runTimedCase(c *h.Ctx, r *h.Report, cs timedCase) {
 	var trace []string
-	synctest.Run(func() {
+	returnedAt := int64(-1)
+	stuck := ""
+	bubble := func() {
 		t0 := time.Now()
 		cfg := hubCfg{PubAlg: "HS256", SubAlg: "HS256", Anonymous: true}
 		f := newFixture(cfg, nil, mercure.WithWriteTimeout(time.Duration(cs.WT)*time.Millisecond),
@@ -104,6 +111,9 @@ func runTimedCase(c *h.Ctx, r *h.Report, cs timedCase) {
 		at := func(ms int) {
 			if d := time.Duration(ms)*time.Millisecond - time.Since(t0); d > 0 {
 				time.Sleep(d)
+				if cs.Tie {
+					return
+				}
 			}
 			synctest.Wait()
 		}
@@ -142,7 +152,12 @@ func runTimedCase(c *h.Ctx, r *h.Report, cs timedCase) {
 			f.hub.ServeHTTP(newRW(), pr)
 			synctest.Wait()
 		}
+		cs2 := cs
+		cs2.Tie = false
+		cs, cs2 = cs2, cs
 		at(cs.Horizon)
+		cs = cs2
+		returnedAt = returned
 		w.mu.Lock()
 		trace = append([]string(nil), w.trace...)
 		w.mu.Unlock()
@@ -164,7 +179,34 @@ func runTimedCase(c *h.Ctx, r *h.Report, cs timedCase) {
 		cancel()
 		f.hub.Stop()
 		synctest.Wait()
-	})
+	}
+	func() {
+		defer func() {
+			if p := recover(); p != nil {
+				msg := fmt.Sprint(p)
+				if !strings.Contains(msg, "deadlock") {
+					panic(p)
+				}
+				// the handler never returned although the client is gone and the hub stopped: synctest found every
+				// goroutine of the bubble blocked for ever
+				buf := make([]byte, 1<<16)
+				buf = buf[:runtime.Stack(buf, true)]
+				for _, blk := range strings.Split(string(buf), "\n\n") {
+					if strings.Contains(blk, "dunglas/mercure.") {
+						for _, l := range strings.Split(blk, "\n") {
+							if strings.HasPrefix(l, "github.com/dunglas/mercure.") {
+								stuck += strings.SplitN(l, "(", 2)[0] + " <- "
+							}
+						}
+					}
+				}
+				if stuck == "" {
+					stuck = msg
+				}
+			}
+		}()
+		synctest.Run(bubble)
+	}()
 	impl := strings.Join(trace, " ")
 	var arr []string
 	for _, a := range cs.Arr {
@@ -183,8 +225,34 @@ func runTimedCase(c *h.Ctx, r *h.Report, cs timedCase) {
 	}
 	model := c.Driver.Ask1(h.Line("timed", h.Itoa(cs.WT), h.Itoa(cs.DT), h.Itoa(cs.HB), opt(cs.Exp), as, opt(cs.Close), h.Itoa(cs.Horizon)))
 	r.Evaluations++
-	if model != impl {
+	// acceptor: the model answers every trace the loop can produce (one per resolution of same-instant races)
+	accepted := false
+	alts := strings.Split(model, " | ")
+	for i, m := range alts {
+		if m == impl && !accepted {
+			accepted = true
+			if len(alts) > 1 {
+				r.Count(fmt.Sprintf("tie:implementation took resolution #%d of the model's list", i+1))
+			}
+		}
+	}
+	if len(alts) > 1 {
+		r.Count("tie:case with several resolutions")
+		r.CountN("tie:resolutions offered", len(alts))
+	}
+	if !accepted {
 		r.Disagree(h.Disagreement{Class: "C16.timed-loop", Case: cs, Model: model, Impl: impl})
+	}
+	rp := map[string]any{"family": "timed", "case": cs}
+	// a connection is released when its client leaves, whatever the timers were doing (implementation alone)
+	if stuck != "" {
+		for _, k := range []string{"C13", "C16"} {
+			r.Violate(h.Violation{Key: k + ":handler-never-returns", What: "the subscribe handler is blocked for ever (client gone, hub stopped): " + stuck + " trace: " + impl, Replay: rp})
+		}
+	} else if cs.Close > 0 && cs.Close <= cs.Horizon && returnedAt < 0 {
+		for _, k := range []string{"C13", "C16"} {
+			r.Violate(h.Violation{Key: k + ":connection-not-released-after-client-left", What: fmt.Sprintf("the client left at %d ms; at %d ms the handler has still not returned; trace: %s", cs.Close, cs.Horizon, impl), Replay: rp})
+		}
 	}
 	// the property's oracle on the implementation's trace alone
 	wd := 0
@@ -196,7 +264,6 @@ func runTimedCase(c *h.Ctx, r *h.Report, cs timedCase) {
 	}
 	lastWrite, end := 0, -1
 	endKind := ""
-	rp := map[string]any{"family": "timed", "case": cs}
 	for _, e := range trace {
 		var ms int
 		var k string
@@ -225,12 +292,18 @@ func runTimedCase(c *h.Ctx, r *h.Report, cs timedCase) {
 	if cs.WT != 0 {
 		want := max(wd-cs.DT, 0)
 		if want <= cs.Horizon && (cs.Close == 0 || cs.Close > want) {
-			if endKind != "self" || end != want {
+			// (dispatch timeout 0: the timer and the deadline are the same instant; a write that select serves first at
+			// that very instant fails and ends the connection there — Props/C16 self_disconnect_or_deadline_at_tie)
+			if !(end == want && (endKind == "self" || (endKind == "endwrite" && want == wd))) {
 				r.Violate(h.Violation{Key: "C16:self-disconnect-instant", What: fmt.Sprintf("with a maximum duration the hub must end the connection itself at %d ms (deadline %d - dispatch timeout %d); trace: %s", want, wd, cs.DT, impl), Replay: rp})
 			}
 		}
 	} else if wd != 0 && endKind == "self" {
 		r.Violate(h.Violation{Key: "C16:unexpected-self-disconnect", What: "no maximum duration configured but the hub ended the connection by itself: " + impl, Replay: rp})
+	}
+	// a write can only fail — and end the connection — once the deadline (maximum duration / token expiry) is reached
+	if endKind == "endwrite" && (wd == 0 || end < wd) {
+		r.Violate(h.Violation{Key: "C16:connection-ended-by-a-failed-write-before-the-deadline", What: fmt.Sprintf("a write failed and the hub ended the connection at %d ms; the deadline is %d ms (0 = none): %s", end, wd, impl), Replay: rp})
 	}
 	if end >= 0 && (endKind == "self" || endKind == "endwrite") {
 		r.Count("ended:" + endKind)
@@ -248,7 +321,7 @@ func runTimedCase(c *h.Ctx, r *h.Report, cs timedCase) {
 }
 
 func runTimed(c *h.Ctx, r *h.Report) {
-	r.Rule = "the real SubscribeHandler inside a synctest bubble (virtual clock) with a ResponseWriter that implements SetWriteDeadline and fails writes at or after the armed deadline: write timeout in {0, 5..120 s}, dispatch timeout in {0, 1..30 s} (also larger than the write timeout), heartbeat in {0, 7, 13, 40 s}, token (claim spelt 'mercure' or with the namespaced fallback key, in the Authorization header or the cookie) expiry absent / before / after the write timeout, 0-6 publishes at arbitrary instants (chosen so that no two timers or arrivals fall on the same millisecond: such ties are resolved at random by Go's select), optional client close; the recorded (virtual time, write | failed write | return) trace is compared with the model's, and the property's oracle (heartbeat gap, nothing written after the deadline, self-disconnect exactly at deadline - dispatch timeout) is evaluated on the implementation's trace alone. Non-trivial = case with at least one publish and a heartbeat or a deadline; distinct by content."
+	r.Rule = "the real SubscribeHandler inside a synctest bubble (virtual clock) with a ResponseWriter that implements SetWriteDeadline and fails writes at or after the armed deadline: write timeout in {0, 5..120 s}, dispatch timeout in {0, 1..30 s} (also larger than the write timeout), heartbeat in {0, 7, 13, 40 s}, token (claim spelt 'mercure' or with the namespaced fallback key, in the Authorization header or the cookie) expiry absent / before / after the write timeout, 0-6 publishes at arbitrary instants, optional client close; a second stream of cases places publishes and the client's close on the very instant a heartbeat or the disconnection timer is due (same-instant races, resolved at random by Go's select); the recorded (virtual time, write | failed write | return) trace must be one of the traces the model produces over all resolutions of such races (Timed.runAll, proved sound and complete for the choice-parametrised loop the theorems speak of), and the property's oracle (heartbeat gap, nothing written after the deadline, self-disconnect exactly at deadline - dispatch timeout) is evaluated on the implementation's trace alone. Non-trivial = case with at least one publish and a heartbeat or a deadline; distinct by content."
 	if c.Replay != "" {
 		var rp struct {
 			Case timedCase `json:"case"`
@@ -310,6 +383,65 @@ func runTimed(c *h.Ctx, r *h.Report) {
 		if cs.HB != 0 && wd != 0 && (max(wd-cs.DT, 0)%cs.HB == 0 || wd%cs.HB == 0) {
 			cs.HB += 1000
 		}
+		runTimedCase(c, r, cs)
+	}
+	// same-instant races, on purpose: a publish (or the client's close) at the very instant a heartbeat or the
+	// disconnection timer is due, issued before the handler has settled
+	nt := c.Scale(160, 3000)
+	for i := 0; i < nt; i++ {
+		rr := c.Rand.Fork()
+		cs := timedCase{Horizon: 100000, Tie: true}
+		cs.HB = h.Pick(rr, []int{7000, 13000, 0})
+		cs.WT = h.Pick(rr, []int{0, 0, 30000, 60000})
+		cs.DT = h.Pick(rr, []int{0, 1000, 5000})
+		if rr.Chance(1, 3) {
+			cs.Exp = h.Pick(rr, []int{21000, 45000, 90000})
+		}
+		wd := cs.WT
+		if cs.Exp != 0 && (wd == 0 || cs.Exp < wd) {
+			wd = cs.Exp
+		}
+		// walk the chain of instants at which the heartbeat is due, placing arrivals on some of them
+		due, id := cs.HB, 1
+		for k := rr.Intn(5) + 1; k > 0 && cs.HB != 0 && due < 90000; k-- {
+			switch rr.Intn(3) {
+			case 0: // an arrival exactly when the heartbeat is due (two arrivals sometimes)
+				cs.Arr = append(cs.Arr, [2]int{due, id})
+				id++
+				if rr.Chance(1, 4) {
+					cs.Arr = append(cs.Arr, [2]int{due, id})
+					id++
+				}
+			case 1: // an arrival a little before: the heartbeat chain restarts from there
+				due -= 1 + rr.Intn(3000)
+				cs.Arr = append(cs.Arr, [2]int{due, id})
+				id++
+			}
+			due += cs.HB
+		}
+		if cs.WT != 0 && rr.Chance(1, 2) { // an arrival exactly when the disconnection timer is due
+			cs.Arr = append(cs.Arr, [2]int{max(wd-cs.DT, 0), id})
+		}
+		if rr.Chance(1, 3) && cs.HB != 0 { // the client leaves exactly when a heartbeat may be due
+			cs.Close = due
+		} else if rr.Chance(1, 2) {
+			cs.Close = 95000
+		}
+		for a := range cs.Arr {
+			for b := a + 1; b < len(cs.Arr); b++ {
+				if cs.Arr[b][0] < cs.Arr[a][0] {
+					cs.Arr[a], cs.Arr[b] = cs.Arr[b], cs.Arr[a]
+				}
+			}
+		}
+		var arr [][2]int
+		for _, a := range cs.Arr {
+			if a[0] > 0 && a[0] < cs.Horizon {
+				arr = append(arr, a)
+			}
+		}
+		cs.Arr = arr
+		r.Count("tie:generated")
 		runTimedCase(c, r, cs)
 	}
 }
